@@ -7,8 +7,7 @@ Lemma remove_redundant_ops_select : forall ops, remove_redundant_ops ops = selec
 Proof.
   induction ops as [|o t IH]; [reflexivity|].
   cbn [remove_redundant_ops redundant_keep select].
-  destruct (andb (redundant_op o) (match t with nxt :: _ => disjoint_b (cdefs o) (uses nxt) | [] => true end));
-    cbn [negb]; rewrite IH; reflexivity.
+  destruct (rro_drop o t); cbn [negb]; rewrite IH; reflexivity.
 Qed.
 
 Lemma In_memb r l : In r l -> memb r l = true.
@@ -94,7 +93,7 @@ Proof.
 Qed.
 
 (* ---- the passes ---- *)
-Theorem remove_redundant_ops_preserves ops : side_ok 3 ops = true ->
+Theorem remove_redundant_ops_preserves_side ops : side_ok 3 ops = true ->
   remove_redundant_ops ops = select (redundant_keep ops) ops /\
   deletion_sim ops (redundant_keep ops) (K_of all_inv ops (redundant_keep ops)) (Inv_of all_inv (length ops)).
 Proof.
@@ -144,4 +143,110 @@ Proof.
   intros Hr Ht Hf n ops. destruct (opt_rounds_iterate f n ops) as (k & _ & ->).
   induction k as [|k IH]; simpl; [apply Hr|].
   eapply Ht; [exact IH|]. eapply Ht; apply Hf.
+Qed.
+
+(* ---- remove_redundant_ops with the forward guard: unconditional ---- *)
+Lemma memb_false_notin r l : memb r l = false -> ~ In r l.
+Proof. intros H Hin. rewrite (In_memb _ _ Hin) in H. discriminate. Qed.
+
+Lemma disjoint_b_sound a b : disjoint_b a b = true -> forall x, In x a -> ~ In x b.
+Proof.
+  unfold disjoint_b. rewrite forallb_forall. intros H x Hx. apply memb_false_notin.
+  apply negb_true_iff. apply H. exact Hx.
+Qed.
+
+Lemma nth_error_skipn_add {A} : forall (l : list A) i k, nth_error l (i + k) = nth_error (skipn i l) k.
+Proof.
+  induction l as [|x l IH]; intros i k.
+  - destruct i; destruct k; reflexivity.
+  - destruct i as [|i]; [reflexivity|]. cbn. apply IH.
+Qed.
+
+(* what the guard establishes: no pending register is live (kill = defs ++ cdefs) at i *)
+Lemma flags_guard_dead ops : forall rest P i, (forall k, nth_error ops (i + k) = nth_error rest k) ->
+  flags_guard P rest = true -> forall c, In c P -> ~ live_in_c ops i c.
+Proof.
+  induction rest as [|n t IH]; intros P i Hsuf Hg c Hc Hlive.
+  - specialize (Hsuf 0%nat). rewrite Nat.add_0_r in Hsuf. cbn in Hsuf.
+    unfold live_in_c in Hlive. inversion Hlive; congruence.
+  - destruct P as [|p0 P0]; [destruct Hc|]. remember (p0 :: P0) as P eqn:HP.
+    assert (Hn : nth_error ops i = Some n) by (specialize (Hsuf 0%nat); rewrite Nat.add_0_r in Hsuf; exact Hsuf).
+    assert (Hsuf' : forall k, nth_error ops (S i + k) = nth_error t k).
+    { intros k. specialize (Hsuf (S k)). rewrite Nat.add_succ_r in Hsuf. exact Hsuf. }
+    cbn [flags_guard] in Hg. rewrite HP in Hg. rewrite <- HP in Hg.
+    destruct (disjoint_b P (uses n)) eqn:Hdis; cbn [negb] in Hg; [|discriminate].
+    unfold live_in_c in Hlive. inversion Hlive as [i0 o0 r0 Hn0 Hu | i0 o0 j r0 Hn0 Hj Hl Hnk]; subst.
+    + rewrite Hn in Hn0. injection Hn0 as <-. exact (disjoint_b_sound _ _ Hdis c Hc Hu).
+    + rewrite Hn in Hn0. injection Hn0 as <-.
+      set (P' := filter (fun r => negb (memb r (cdefs n ++ defs n))) (p0 :: P0)) in *.
+      assert (Hc' : In c P').
+      { apply filter_In. split; [exact Hc|]. apply negb_true_iff.
+        destruct (memb c (cdefs n ++ defs n)) eqn:E; [|reflexivity]. exfalso. apply Hnk.
+        apply memb_In in E. unfold defs_c. apply in_app_or in E. apply in_or_app. tauto. }
+      unfold succs in Hj. rewrite Hn in Hj. unfold succs_of in Hj.
+      assert (Hnext : flags_guard P' t = true -> j = S i -> False).
+      { intros Hg' ->. exact (IH P' (S i) Hsuf' Hg' c Hc' Hl). }
+      assert (Hnil : nil_b P' = true -> False) by (intros E; apply nil_b_nil in E; rewrite E in Hc'; destruct Hc').
+      destruct (kind n) as [d s| |l|l|l c0|l| |r|opc args]; try (exact (Hnil Hg)).
+      * destruct Hj as [<-|[]]. exact (Hnext Hg eq_refl).
+      * destruct Hj as [<-|[]]. exact (Hnext Hg eq_refl).
+      * destruct Hj as [<-|[]]. exact (Hnext Hg eq_refl).
+      * destruct (is_org_stop opc); [exact (Hnil Hg)|].
+        destruct (N.eqb opc OPC_RVRT); [destruct Hj|]. destruct Hj as [<-|[]]. exact (Hnext Hg eq_refl).
+Qed.
+
+Lemma redundant_keep_nth : forall ops i,
+  nth_error (redundant_keep ops) i =
+  option_map (fun o => negb (rro_drop o (skipn (S i) ops))) (nth_error ops i).
+Proof.
+  induction ops as [|o t IH]; intros i; [destruct i; reflexivity|].
+  destruct i as [|i]; [reflexivity|]. cbn [redundant_keep nth_error]. rewrite IH. reflexivity.
+Qed.
+
+Lemma redundant_keep_length ops : length (redundant_keep ops) = length ops.
+Proof. induction ops as [|o t IH]; cbn; [reflexivity|]. rewrite IH. reflexivity. Qed.
+
+Theorem remove_redundant_ops_preserves ops : rro_table_ok ops = true ->
+  forall (M : Type) sem call_sem, rvrt_stops M sem -> mcp_zero_skips M sem ops ->
+  forall st st', R M ops (redundant_keep ops) flagK st st' ->
+  (forall n, exists m, (m <= n)%nat /\
+     Rres M ops (redundant_keep ops) flagK (run M sem call_sem ops n st)
+                                           (run M sem call_sem (remove_redundant_ops ops) m st')) /\
+  (forall m, exists n,
+     Rres M ops (redundant_keep ops) flagK (run M sem call_sem ops n st)
+                                           (run M sem call_sem (remove_redundant_ops ops) m st')).
+Proof.
+  intros Ht M sem cs Hrv Hmcp st st' HR.
+  unfold rro_table_ok in Ht. apply andb_true_iff in Ht. destruct Ht as [Hw Htab].
+  rewrite forallb_forall in Hw, Htab.
+  assert (Hwf : wf_c ops).
+  { intros i o Hn. apply wf_c_opb_sound. apply Hw. eapply nth_error_In; eassumption. }
+  assert (Hdrop : forall i o, nth_error (redundant_keep ops) i = Some false -> nth_error ops i = Some o ->
+            (droppable o = true \/ skip_like M sem o) /\
+            forall c, In c (cdefs o) -> flagK c /\ ~ live_out_c ops i c).
+  { intros i o Hk Hn. rewrite redundant_keep_nth, Hn in Hk. cbn in Hk. injection Hk as Hk.
+    apply negb_false_iff in Hk. unfold rro_drop in Hk. apply andb_true_iff in Hk. destruct Hk as [Hred Hg].
+    pose proof (Htab o (nth_error_In _ _ Hn)) as Hto. rewrite Hred in Hto. cbn in Hto.
+    apply andb_true_iff in Hto. destruct Hto as [Hfl Hnd]. rewrite forallb_forall in Hfl.
+    split.
+    - pose proof Hred as Hred0. unfold redundant_op in Hred. unfold droppable.
+      destruct (kind o) as [d s| |l|l|l c0|l| |r|opc args] eqn:Hkind; try discriminate; auto.
+      right. exists opc, args. split; [exact Hkind|]. split; [apply nil_b_nil; exact Hnd|].
+      exact (Hmcp o opc args (nth_error_In _ _ Hn) Hkind Hred0).
+    - intros c Hc. split.
+      + specialize (Hfl c Hc). unfold is_flag in Hfl. apply orb_true_iff in Hfl.
+        destruct Hfl as [E|E]; apply N.eqb_eq in E; [left|right]; exact E.
+      + intros (j & Hj & Hl).
+        assert (Hdead : ~ live_in_c ops (S i) c).
+        { apply (flags_guard_dead ops (skipn (S i) ops) (cdefs o) (S i)); [|exact Hg|exact Hc].
+          intros k. apply nth_error_skipn_add. }
+        unfold succs in Hj. rewrite Hn in Hj. unfold succs_of in Hj. unfold redundant_op in Hred.
+        destruct (kind o) as [d s| |l|l|l c0|l| |r|opc args]; try discriminate.
+        * destruct Hj as [<-|[]]. exact (Hdead Hl).
+        * destruct Hj as [<-|[]]. exact (Hdead Hl).
+        * destruct (N.eqb opc OPC_RVRT); [destruct Hj|]. destruct Hj as [<-|[]]. exact (Hdead Hl). }
+  rewrite remove_redundant_ops_select.
+  split; intros k.
+  - eapply erase_fwd; eauto using flagK_not_call_in, redundant_keep_length.
+  - eapply erase_bwd; eauto using flagK_not_call_in, redundant_keep_length.
 Qed.
